@@ -175,29 +175,53 @@ def sh3(prog):
             err = match(node, ba[2]) or match(C("neg", node), ba[1])
         out.append(inst("SH", "%s:SH3:literal" % fn.npath, VIOLATION if err else OK, fn, None,
                         err or "positive literal = node(l, ⊥, ⊤); negative literal = its complement"))
+    def by_polarity(t, b):
+        """t with every choice on a literal's polarity() resolved for polarity b"""
+        def go(u):
+            if not isinstance(u, tuple) or not u:
+                return u
+            if u[0] == "gamma" and mir.is_call(strip(u[1]), "polarity"):
+                for lab, v in u[2]:
+                    if isinstance(lab, str) and (lab != "0") == b:
+                        return go(v)
+                for lab, v in u[2]:
+                    if isinstance(lab, tuple) and lab[0] == "not" and (("0" in lab[1]) == b):
+                        return go(v)
+            if u[0] == "call":
+                return (u[0], u[1], tuple(go(a) for a in u[2])) + tuple(u[3:])
+            return tuple(go(a) if isinstance(a, tuple) else a for a in u)
+        return canon.project(go(t))
+
     for name in ("conjoin_implied", "compile_cnf_topdown"):
         fn = prog.find1(name=name, in_trait=DN, unit="rsdd-lib")
-        te = fn.terms
-        news = [cs for cs in te.calls if cs.callee.name == "new" and "BddNode" in cs.callee.key()]
+        bodies = [fn] + [g for g in prog.lib_fns if g.npath.startswith(fn.npath + "::{closure")]
         errs = []
         seen = set()
-        for cs in news:
-            pol = None
-            for c, val, _, d in reversed(te.facts_at(cs.bb)):
-                if mir.is_call(strip(c), "polarity"):
-                    pol = val != "0"
-                    break
-            if pol is None:
-                errs.append("?line %d: node not under a polarity test" % cs.line)
-                continue
-            seen.add(pol)
-            lo, hi = strip(cs.args[1]), strip(cs.args[2])
-            lo_false, hi_false = const_kind(lo) == "false", const_kind(hi) == "false"
-            if pol and not (lo_false and not hi_false):
-                errs.append("a positive implied literal must be node(l, ⊥, rest); found node(l, %s, %s)" % (show(lo)[:30], show(hi)[:30]))
-            if not pol and not (hi_false and not lo_false):
-                errs.append("a negative implied literal must be node(l, rest, ⊥); found node(l, %s, %s)" % (show(lo)[:30], show(hi)[:30]))
-        if seen != {True, False}:
+        delegated = name != "conjoin_implied" and any(cs.callee.name == "conjoin_implied" for g in bodies for cs in g.terms.calls)
+        for g in bodies:
+            te = g.terms
+            for cs in te.calls:
+                if not (cs.callee.name == "new" and "BddNode" in cs.callee.key()):
+                    continue
+                pols = []
+                for c, val, _, d in reversed(te.facts_at(cs.bb)):
+                    if mir.is_call(strip(c), "polarity"):
+                        pols = [val != "0"]
+                        break
+                if not pols and any(x[0] == "gamma" and mir.is_call(strip(x[1]), "polarity") for a in cs.args for x in mir.subterms(a)):
+                    pols = [False, True]      # one construction whose children are chosen by the polarity
+                if not pols:
+                    errs.append("?line %d: node not under a polarity test" % cs.line)
+                    continue
+                for pol in pols:
+                    seen.add(pol)
+                    lo, hi = strip(by_polarity(cs.args[1], pol)), strip(by_polarity(cs.args[2], pol))
+                    lo_false, hi_false = const_kind(lo) == "false", const_kind(hi) == "false"
+                    if pol and not (lo_false and not hi_false):
+                        errs.append("a positive implied literal must be node(l, ⊥, rest); found node(l, %s, %s)" % (show(lo)[:30], show(hi)[:30]))
+                    if not pol and not (hi_false and not lo_false):
+                        errs.append("a negative implied literal must be node(l, rest, ⊥); found node(l, %s, %s)" % (show(lo)[:30], show(hi)[:30]))
+        if seen != {True, False} and not (delegated and not seen):
             errs.append("?both polarities expected")
         out.append(inst("SH", "%s:SH3:implied-literal" % fn.npath, VIOLATION if errs else OK, fn, None,
                         "; ".join(errs) if errs else "implied literal l ∧ rest: positive ↦ node(l, ⊥, rest), negative ↦ node(l, rest, ⊥)"))
